@@ -949,12 +949,14 @@ def check_enum(case, rec):
 def filter_cases(draw):
     n = draw(st.integers(1, 3))
     m = draw(st.integers(n, 3))
-    pt = st.tuples(*[st.integers(0, 3)] * n)
+    # coordinates with different numbers of digits (8, 9, 10, 11 ...) so that numeric and textual order differ
+    coord = st.sampled_from([0, 1, 2, 3, 8, 9, 10, 11, 19, 20, 99, 100])
+    pt = st.tuples(*[coord] * n)
     inp = sorted(draw(st.sets(pt, min_size=draw(st.sampled_from([0, 1, 3, 4])), max_size=9)))
     fil = []
     for _ in range(draw(st.integers(0, 10))):
         pre = draw(st.sampled_from(inp)) if inp and draw(st.integers(0, 3)) else draw(pt)
-        fil.append(list(pre) + [draw(st.integers(0, 2)) for _ in range(m - n)])
+        fil.append(list(pre) + [draw(st.sampled_from([0, 1, 2, 9, 10])) for _ in range(m - n)])
     fil.sort()
     rows_in = [[i] * n + list(p) + [draw(st.integers(0, 9))] for i, p in enumerate(inp)]
     rows_fil = [[i] * m + list(p) + [draw(st.integers(0, 9))] for i, p in enumerate(fil)]
